@@ -142,6 +142,23 @@ def run(ctx):
     for pkg, name, rc, log, out in runs:
         ctx.oblige("harness-runs:" + pkg, rc == 0, log[-1500:] if rc != 0 else "")
         if not os.path.exists(os.path.join(out, "summary.json")):
+            # the process died without running its deferred close (fatal runtime error: stack overflow, out of memory, …): the op it was
+            # executing is in inflight.jsonl; re-run that op ALONE in a fresh process to confirm it kills the process again
+            infl = os.path.join(out, "inflight.jsonl")
+            op_text = open(infl, errors="replace").read().strip() if os.path.exists(infl) else ""
+            if op_text and not ctx.replay:
+                alone = os.path.join(ctx.scratch, "alone_" + name)
+                os.makedirs(alone, exist_ok=True)
+                rp = os.path.join(alone, "op.jsonl")
+                with open(rp, "w") as f:
+                    f.write(op_text + "\n")
+                binary = [b for p_, n_, b in bins if n_ == name][0]
+                rc2, log2, _ = ctx.run_harness(binary, "TestVerifC19", {"VERIF_REPLAY": rp, "VERIF_N": 1}, outdir=alone, timeout=600)
+                if rc2 != 0 and not os.path.exists(os.path.join(alone, "summary.json")):
+                    mk = re.search(r'"op":"([^"]+)"', op_text)
+                    fatal = re.search(r"(fatal error: [^\n]*|runtime: goroutine stack exceeds[^\n]*|signal: killed)", log2)
+                    sig = f"C19:{mk.group(1) if mk else '?'}:process-died"
+                    violate(sig, f"{pkg}: the op KILLS THE PROCESS (not recoverable), confirmed by re-running it alone: {fatal.group(1) if fatal else log2[-200:]}", op_text)
             continue   # (a harness that died still flushes what it had: its outputs are searched for a concrete failing input)
         summ = json.load(open(os.path.join(out, "summary.json")))
         for ep, c in summ["counts"].items():
@@ -178,6 +195,15 @@ def run(ctx):
                     sig = f"C19:{kind}:{c}"
                     violate(sig, f"{MODELLED.get(kind, kind)}: input makes the real code end in `{c}` (impl line: {line[:200]})", ops[i])
             for i in bad:
+                # clause (S): the model is the specification of what is REJECTED — the real code accepting an input the model rejects is a
+                # concrete violation ("malformed input is rejected with an error"), not just a broken correspondence
+                a, b = (impl[i] if i < len(impl) else ""), (model[i] if i < len(model) else "")
+                fa, fb = a.split(" ")[0].split("=")[-1], b.split(" ")[0].split("=")[-1]
+                if fa.startswith("ok") and fb.startswith("err") and i < len(ops):
+                    mk = re.search(r'"op":"([^"]+)"', ops[i])
+                    kind = mk.group(1) if mk else "?"
+                    violate(f"C19:{kind}:malformed-input-accepted", f"{MODELLED.get(kind, kind)}: the real code ACCEPTS an input that must be rejected "
+                            f"(model: {b[:80]}; implementation: {a[:80]})", ops[i])
                 corr_bad.append((pkg, i, impl[i] if i < len(impl) else None, model[i] if i < len(model) else None, ops[i] if i < len(ops) else ""))
         # ---- exploration failures (not-modelled entry points)
         fp = os.path.join(out, "explore_fail.jsonl")
